@@ -1,7 +1,7 @@
 (** Dispatch2.v — entry points of the models added after Dispatch.v (DER/token keys, hashes, key blinding, ...).
     [dispatch2] is what the OCaml runner calls; unknown names fall through to [dispatch]. *)
 From Coq Require Import Strings.String.
-From PatVerif Require Import Base.GoSem Model.Dispatch Model.TokenKey Model.Codecs Model.Derive Model.Ed25519 Model.TokenVerify Model.Ecdsa Model.BatchIssuer Base.Mem Base.Conc.
+From PatVerif Require Import Base.GoSem Model.Dispatch Model.TokenKey Model.Codecs Model.Derive Model.Ed25519 Model.TokenVerify Model.Ecdsa Model.BatchIssuer Base.Mem Base.Conc Model.Frontends.
 Open Scope N_scope.
 
 Definition out_z (z : Z) : list (list byte) :=
@@ -152,6 +152,26 @@ Definition dispatch_conc (name : list byte) (a : list (list byte)) : option (lis
     Some (map (fun p => show_obs (snd p)) obs ++ map (fun l => show_obs (hf l)) (seq 0 8))
   else None.
 
+(** exact finalization runs: the primitives' answers are supplied by the harness from circl / crypto/rsa called
+    directly with the same verifier state.  fin1_full: input resp elt_ok proof_ok (flag||out) ;
+    fin2_full: input resp (flag||sig) pss_ok ; fin5_full: n resp elts_ok proof_ok (flag||concat outs 64 each) inputs... *)
+Definition opt_arg (b : list byte) : option (list byte) :=
+  match b with x :: r => if byte_eqb x x01 then Some r else None | [] => None end.
+Fixpoint chunks_of (k : nat) (fuel : nat) (l : list byte) : list (list byte) :=
+  match fuel with O => [] | S f => match l with [] => [] | _ => firstn k l :: chunks_of k f (skipn k l) end end.
+Definition out_tok (r : res token) : list (list byte) :=
+  match r with Ok t => [st_ok; enc_token t] | Err => [st_none] | Panic => [st_panic] end.
+Definition dispatch_fin (name : list byte) (a : list (list byte)) : option (list (list byte)) :=
+  if is name "fin1_full" then
+    Some (out_tok (fin1 (fun _ => flag (arg a 2)) (fun _ => flag (arg a 3)) (fun _ _ => opt_arg (arg a 4)) (arg a 0) (arg a 1)))
+  else if is name "fin2_full" then
+    Some (out_tok (fin2 (fun _ => opt_arg (arg a 2)) (fun _ _ => flag (arg a 3)) (arg a 0) (arg a 1)))
+  else if is name "fin5_full" then
+    let outs := match opt_arg (arg a 4) with Some o => Some (chunks_of 64 (length o) o) | None => None end in
+    Some (match fin5 (fun _ => flag (arg a 2)) (fun _ => flag (arg a 3)) (fun _ _ => outs) (skipn 5 a) (arg a 1) with
+          | Ok (ts, _) => [st_ok; concat (map enc_token ts)] | Err => [st_none] | Panic => [st_panic] end)
+  else None.
+
 Definition dispatch2 (name : list byte) (a : list (list byte)) : list (list byte) :=
   match dispatch_tokenkey name a with Some r => r | None =>
   match dispatch_derive name a with Some r => r | None =>
@@ -160,4 +180,5 @@ Definition dispatch2 (name : list byte) (a : list (list byte)) : list (list byte
   match dispatch_ecdsa name a with Some r => r | None =>
   match dispatch_batch name a with Some r => r | None =>
   match dispatch_mem name a with Some r => r | None =>
-  match dispatch_conc name a with Some r => r | None => dispatch name a end end end end end end end end.
+  match dispatch_conc name a with Some r => r | None =>
+  match dispatch_fin name a with Some r => r | None => dispatch name a end end end end end end end end end.
